@@ -9,6 +9,7 @@
 //   - stops short at every subset of the positions of a window (= every composition of chunk sizes
 //     inside the window), for windows at the stream head, a record head, a record boundary, the tail,
 //   - returns the final bytes together with io.EOF (allowed by the io.Reader contract),
+//
 // and, for every byte of every record of a 3-object dump, with that byte corrupted (3 xor masks),
 // ignoreErrors off and on. The restored shard is read back raw from its FSTrees and via the metabase.
 package main
@@ -157,20 +158,20 @@ func buildDump(c content) (*dump, error) {
 // ---------- reader ----------
 
 type readerSpec struct {
-	Cuts     []int `json:",omitempty"` // absolute stream offsets at which a Read stops short
-	Chunk    int   `json:",omitempty"` // max bytes per Read (0 = unlimited)
-	EOFData  bool  `json:",omitempty"` // deliver the final bytes together with io.EOF
-	Class    string
+	Cuts    []int `json:",omitempty"` // absolute stream offsets at which a Read stops short
+	Chunk   int   `json:",omitempty"` // max bytes per Read (0 = unlimited)
+	EOFData bool  `json:",omitempty"` // deliver the final bytes together with io.EOF
+	Class   string
 }
 
 // sizeLimit: no record of the harness's dumps is anywhere near this; see vbinary.
 const sizeLimit = 1 << 16
 
 type splitReader struct {
-	data   []byte
-	pos    int
-	sp     readerSpec
-	short  int // reads that returned less than asked although more data followed
+	data  []byte
+	pos   int
+	sp    readerSpec
+	short int // reads that returned less than asked although more data followed
 }
 
 func (r *splitReader) Read(p []byte) (int, error) {
@@ -207,7 +208,7 @@ type job struct {
 	Dump    int
 	DumpSum string
 	Reader  readerSpec
-	CorrOff int  // -1 = none; absolute offset of the corrupted byte
+	CorrOff int // -1 = none; absolute offset of the corrupted byte
 	CorrXor byte
 	Ignore  []bool // ignoreErrors values to run
 }
